@@ -61,11 +61,17 @@ def gen_cases(tier, seed):
     ls = 3 if thorough else 2
     for A in [list(t) for k in range(0, ls + 1) for t in itertools.product(srows, repeat=k)]:
         yield {"check": "rows", "A": [list(r) for r in A], "Bs": "all", "lb": ls, "rows": [list(r) for r in srows]}
+    # rows whose entries straddle powers of two (any packing of a row into bit fields / digits sized from the largest
+    # entry must give 4 and 8 their own width): (4,0) / (0,1), (8,0) / (0,2) / (0,1), (3,1)
+    brows = [(4, 0), (0, 1), (3, 1), (8, 0)] + ([(0, 2), (7, 1)] if thorough else [])
+    for A in [list(t) for k in range(0, ls + 1) for t in itertools.product(brows, repeat=k)]:
+        yield {"check": "rows", "A": [list(r) for r in A], "Bs": "all", "lb": ls, "rows": [list(r) for r in brows]}
     # khatrirao
-    maxm = 4 if thorough else 3
+    maxm = 4
     maxc = 3 if thorough else 2
     for m in range(1, maxm + 1):
-        for rc in itertools.product(range(1, 4), repeat=m):
+        # (quick: four matrices with 1-2 rows each; the recursion / pairing structure of the product is what matters)
+        for rc in itertools.product(range(1, 4) if (thorough or m < 4) else range(1, 3), repeat=m):
             if prod(rc) > 27:
                 continue
             for c in range(1, maxc + 1):
@@ -316,9 +322,17 @@ def _run_rows(case, ctx):
             ctx.outcome(idx)
         # union (rows)
         ctx.tick()
-        ok, got = _call(ctx, "tt_union_rows", lambda: tt_union_rows(a.copy(), b.copy()), case=sub)
+        ua, ub = a.copy(), b.copy()
+        ok, got = _call(ctx, "tt_union_rows", lambda: tt_union_rows(ua, ub), case=sub)
         if ok:
             g = np.asarray(got)
+            # depth 2: the union is a new row set; writing into it must leave both operands as they were
+            if g.size and g.flags.writeable:
+                g[...] = g + 7
+                if not (np.array_equal(ua, a) and np.array_equal(ub, b)):
+                    ctx.fail("tt_union_rows", "alias", f"A={A} B={B}: writing into the returned rows changed an operand",
+                             case=sub)
+                g = g - 7
             want = sa | sb
             rr = [tuple(int(x) for x in r) for r in g.reshape(-1, 2).tolist()] if g.size else []
             if not (set(rr) == want and len(rr) == len(want)):
